@@ -42,6 +42,11 @@ func AsmCfg(legacy bool) *rapid.Generator[AsmConfig] {
 			c.Distance = m - c.Length
 		}
 		c.Processes = rapid.SampledFrom([]int64{1, 64, 8000, 12345, 8000 + 65536, 64 + 65536, 1 << 32}).Draw(t, "P")
+		if Rare(t, "fullcore", 3) {
+			// a warrior may be as long as the core: distances between its lines reach the core size
+			c.CoreSize = rapid.SampledFrom([]int64{5, 3, 4, 7, 8, 16}).Draw(t, "Mfull")
+			c.Length, c.Distance = c.CoreSize, 0
+		}
 		return c
 	})
 }
